@@ -48,6 +48,7 @@ type scenario struct {
 	StopErr bool
 	Parent string        // live | pre | at:<offset>
 	Cause  bool          // the parent context is ended with a recorded cause (context.WithCancelCause)
+	Nested int           // Parallelise: every action calls Parallelise itself over that many arguments
 	Wide   bool          // long argument list: delay bounding (every departure from the default schedule costs one deviation)
 	POff   time.Duration
 	// parallelise
@@ -368,6 +369,13 @@ func bodyParallelise(x *gosim.Exec, w *world, sc scenario) {
 	action := func(arg interface{}) (interface{}, error) {
 		i := arg.(int)
 		w.calls[i]++
+		if sc.Nested > 0 {
+			// the action fans out itself (the library does: the garbage collector calls Parallelise per sub-directory)
+			inner := make([]int, sc.Nested)
+			if _, err := parallelisation.Parallelise(inner, func(interface{}) (interface{}, error) { return 0, nil }, reflect.TypeOf([]int{})); err != nil {
+				return nil, err
+			}
+		}
 		if sc.Outcomes[i] {
 			return nil, errs[i]
 		}
@@ -597,6 +605,10 @@ func scenarios() []scenario {
 			out = append(out, scenario{Name: fmt.Sprintf("parallelise/wide/%d/%s", n, name), Family: "parallelise", Outcomes: oc, Bound: 0, Wide: true})
 		}
 	}
+	// nested use: 63 / 64 / 65 / 130 actions that each fan out over 2 arguments (default schedule)
+	for _, n := range []int{3, 63, 64, 65, 130} {
+		out = append(out, scenario{Name: fmt.Sprintf("parallelise/nested/%d actions x 2", n), Family: "parallelise", Outcomes: make([]bool, n), Nested: 2, Bound: 0, Wide: true})
+	}
 	// cancel store: 2 threads x 1..2 calls (3 threads in thorough)
 	var scripts []string
 	for _, a := range "RCL" {
@@ -668,6 +680,30 @@ func TestC12(t *testing.T) {
 		budget = 20 * time.Minute
 	}
 	rep := ev.NewReporter("C12", "model_checking")
+	// free-running companion (not an exploration): nested use of Parallelise under the real scheduler, with a guard of one
+	// minute around calls that take milliseconds. It exists because state shared between ALL calls of the process (a
+	// package-level channel or lock) is created outside the explorer's executions, where a goroutine blocked on it is not
+	// seen as blocked: the explorer would wait for ever (the pool ends such a run with an engine error after four minutes).
+	for _, n := range []int{64, 130, 300} {
+		done := make(chan error, 1)
+		go func() {
+			outer := make([]int, n)
+			_, err := parallelisation.Parallelise(outer, func(interface{}) (interface{}, error) {
+				inner := make([]int, 2)
+				_, err := parallelisation.Parallelise(inner, func(interface{}) (interface{}, error) { return 0, nil }, reflect.TypeOf([]int{}))
+				return 0, err
+			}, reflect.TypeOf([]int{}))
+			done <- err
+		}()
+		select {
+		case err := <-done:
+			if err != nil {
+				rep.Violation("parallelise:nested:foreign-error:free-running", map[string]any{"actions": n, "error": err.Error()})
+			}
+		case <-time.After(time.Minute):
+			rep.Violation("parallelise:nested:did-not-return:free-running", map[string]any{"actions": n, "each_calls_parallelise_over": 2, "waited": "60 s"})
+		}
+	}
 	stats := gosim.ExplorePool(t, gs, ev.Workers(), time.Now().Add(budget))
 	total := gosim.NewStats()
 	perFamily := map[string]map[string]int64{}
